@@ -747,7 +747,9 @@ class Paths:
                 return v
             if v is not None:
                 n = v
-            if n[0] == "call" and len(n) == 5 and isinstance(n[4], str) and n[4].startswith("@"):
+            if n[0] == "call" and len(n) == 5 and isinstance(n[4], str) and n[4].startswith("@") and not (
+                    n[1].split("::")[-1] in ("call", "call_mut", "call_once") and "::function::Fn" in n[1] and len(n[3]) == 2
+                    and (is_closure(strip_refs(n[3][0])) or is_fnitem(strip_refs(n[3][0])))):
                 return n[:4] + (n[4] + inst,)
             if n[0] == "call" and n[1].split("::")[-1] in ("call", "call_mut", "call_once") and "::function::Fn" in n[1] and len(n[3]) == 2:
                 # a callable parameter of the callee that this invocation binds to a known closure / fn item: a pure
@@ -770,7 +772,10 @@ class Paths:
             if x[0] == "write" and len(x) == 3:
                 effects.append(("write", self._lvalue_place(x[1], r, f), f(x[2])))
             else:
-                effects.append(tuple(f(y) if _is_tree(y) else y for y in x))
+                y2 = tuple(f(y) if _is_tree(y) else y for y in x)
+                if x[0] == "call" and len(y2) > 1 and _is_tree(y2[1]) and y2[1][0] != "call":
+                    continue      # the call of a callable parameter that turned out to be a pure closure: no effect
+                effects.append(y2)
         return (facts, effects, f(s.ret))
 
     def _lvalue_place(self, lv, r, f):
